@@ -87,9 +87,10 @@ def level (s : SlotBelt) : Nat := s.items.length + s.ready.length
 def sched (s : SlotBelt) (time : Nat) (urgent : Bool) (k : SKind) : SlotBelt :=
   { s with queue := insSEv { time := time, urgent := urgent, seq := s.nextSeq, kind := k } s.queue, nextSeq := s.nextSeq + 1 }
 
-/-- `_do_reserve_put`'s test (with noaccumulation_mode_on = False) -/
+/-- `_do_reserve_put`'s test (with noaccumulation_mode_on = False): no granted-unused space reservation
+(one item enters at a time), room, and the last item entered at least one slot delay ago -/
 def admits (s : SlotBelt) : Bool :=
-  decide (s.putRes.length + s.level < s.cfg.cap) &&
+  s.putRes.isEmpty && decide (s.putRes.length + s.level < s.cfg.cap) &&
   (match s.items.getLast? with
    | none => true
    | some e => decide (e.entry + s.cfg.delay ≤ s.now))
